@@ -79,7 +79,7 @@ class Recorder:
 
     def __enter__(self):
         impl = self.impl
-        mods = {'cpu_ops': impl.cpu_ops, 'conv_tools': impl.conv_tools}
+        mods = {'cpu_ops': impl.cpu_ops, 'conv_tools': impl.conv_tools, 'utils': impl.synapgrad.utils}
         for (mq, name), k in self.kernels.items():
             orig = getattr(mods[mq], name, None)
             if orig is None:
@@ -106,7 +106,7 @@ class Recorder:
             try:
                 ba = sig.bind(*a, **kw)
                 ba.apply_defaults()
-                args = [alpha(np, ba.arguments[p]) for p in k['params']]
+                args = [alpha(np, ba.arguments[p], rec.impl.synapgrad.Tensor) for p in k['params']]   # a Tensor argument = its data
             except Exception as ex:       # signature changed under the translator
                 args = None
                 rec.errors.append("%s.%s: cannot bind arguments (%r)" % (mq, name, ex))
